@@ -48,7 +48,11 @@ func TestWorldModels(t *testing.T) {
 		if e.Success {
 			wantRes = "success"
 		}
-		if ce.Result != wantRes {
+		if e.NoResult {
+			if ce.Result == "success" {
+				t.Errorf("a record without result field coalesced to success: %v", e.Lines[0])
+			}
+		} else if ce.Result != wantRes {
 			t.Errorf("result: got %q want %q for %v", ce.Result, wantRes, e.Lines[0])
 		}
 		if !ce.Timestamp.Equal(e.TS) {
